@@ -296,8 +296,8 @@ def sample_points(rng, n, count, eqcons):
     return pts
 
 
-def stream_infer(ctx, rng, N):
-    cases = [gen_infer_case(rng) for _ in range(N)]
+def stream_infer(ctx, rng, N, given=None, pinned=None):
+    cases = given if given is not None else [gen_infer_case(rng) for _ in range(N)]
     lines, outs, keep = [], [], []
     for c in cases:
         try:
@@ -336,7 +336,7 @@ def stream_infer(ctx, rng, N):
         else:
             ctx.traces_validated += 1
         if X is not None:
-            why = audit_inferred(ctx, rng, c, gts, eqs, X, m)
+            why = audit_inferred(ctx, rng, c, gts, eqs, X, m, pinned=pinned)
             if why:
                 ctx.violation('inferred domain: ' + why[0], {'stream': 'infer', 'case': c, 'point': why[1]})
 
@@ -367,14 +367,20 @@ def all3(vals):
     return True
 
 
-def audit_inferred(ctx, rng, c, gts, eqs, X, m):
+def audit_inferred(ctx, rng, c, gts, eqs, X, m, pinned=None):
     """pointwise: all constraints => in X;  kept constraints (X.gts / X.eqs) <=> conic data <=> check_membership"""
     n = c['n']
     eqcons = [([float(F(x)) for x in k['a']], k['rhs']) for k in m.get('cons', []) if k['kind'] == 'eq']
     pts = sample_points(rng, n, 14, eqcons) + sample_points(rng, n, 4, [])
-    for y in pts:
+    if pinned is not None:
+        # a stored point x of a violation: its log-magnitudes first
+        with np.errstate(all='ignore'):
+            pts = [[math.log(abs(v)) if c['poly'] else float(v) for v in pinned]] + pts
+    for pi, y in enumerate(pts):
         if c['poly']:
             sgn = [rng.choice([-1.0, 1.0]) for _ in range(n)]
+            if pinned is not None and pi == 0:
+                sgn = [-1.0 if v < 0 else 1.0 for v in pinned]
             x = np.array([s_ * math.exp(v) for s_, v in zip(sgn, y)])
         else:
             x = np.array(y, dtype=float)
@@ -438,12 +444,15 @@ def gen_clcons(rng, n, x):
     return cons, desc
 
 
-def stream_reorder(ctx, rng, N):
+def stream_reorder(ctx, master, N, seeds=None):
+    import random
     import sageopt.coniclifts as cl
     from sageopt.symbolic.signomials import SigDomain
     from sageopt.symbolic.polynomials import PolyDomain
     lines, metas = [], []
-    for t in range(N):
+    seeds = seeds if seeds is not None else [master.randrange(1 << 30) for _ in range(N)]
+    for t, cseed in enumerate(seeds):
+        rng = random.Random(cseed)          # every case from its own sub-seed, so that a stored violation can be executed again
         n = rng.randint(1, 4)
         poly = rng.random() < 0.4
         x = cl.Variable(shape=(n,), name='c15x_%d_%d' % (ctx.seed, t))
@@ -452,18 +461,18 @@ def stream_reorder(ctx, rng, N):
             X = PolyDomain(n, logspace_cons=cons, check_feas=False) if poly else SigDomain(n, coniclifts_cons=cons, check_feas=False)
         except Exception as e:  # noqa: BLE001
             ctx.violation('constructing a domain from coniclifts constraints raised %s: %s' % (type(e).__name__, str(e)[:80]),
-                          {'stream': 'reorder', 'n': n, 'desc': desc, 'poly': poly})
+                          {'stream': 'reorder', 'n': n, 'desc': desc, 'poly': poly, 'cseed': cseed})
             continue
         A, b, K, vmap, _, _ = cl.compile_constrained_system(cons)
         A = A.toarray()
         sel = [int(i) for i in np.asarray(vmap[x.name]).ravel()]
         lines.append({'op': 'domain.reorder', 'A': [[rm.fr(v) for v in row] for row in A.tolist()], 'ncols': int(A.shape[1]), 'selector': sel})
-        metas.append((n, poly, desc, X, cons, x, b, K))
+        metas.append((n, poly, desc, X, cons, x, b, K, rng, cseed))
     mouts = run_driver(lines)
-    for (n, poly, desc, X, cons, x, b, K), mo in zip(metas, mouts):
+    for (n, poly, desc, X, cons, x, b, K, rng, cseed), mo in zip(metas, mouts):
         if isinstance(mo, dict) and 'error' in mo:
             raise common.DriverError(mo['error'])
-        case = {'n': n, 'poly': poly, 'desc': desc}
+        case = {'n': n, 'poly': poly, 'desc': desc, 'cseed': cseed}
         ctx.case({'stream': 'reorder', 'case': case}, nontrivial=True)
         ctx.count('stream:reorder')
         ctx.count('reorder:aux=%d' % (np.asarray(X.A).shape[1] - n))
@@ -539,15 +548,18 @@ def stream_reorder(ctx, rng, N):
                     break
 
 
-def stream_empty(ctx, rng, N):
+def stream_empty(ctx, rng, N, given=None):
     import sageopt.coniclifts as cl
     from sageopt.symbolic.signomials import SigDomain
-    for t in range(N):
-        n = rng.randint(1, 3)
+    for t in range(N if given is None else len(given)):
+        if given is None:
+            n = rng.randint(1, 3)
+            j = rng.randrange(n)
+            empty = rng.random() < 0.5
+            lo = float(rng.randint(-2, 2))
+        else:
+            n, j, empty, lo = given[t]
         x = cl.Variable(shape=(n,), name='c15e_%d_%d' % (ctx.seed, t))
-        j = rng.randrange(n)
-        empty = rng.random() < 0.5
-        lo = float(rng.randint(-2, 2))
         cons = [x[j] >= lo + (1.0 if empty else -1.0), x[j] <= lo]
         if n > 1:
             cons.append(x[(j + 1) % n] <= 1.0)
@@ -571,6 +583,7 @@ def run(ctx):
     rng = ctx.rng
     ctx.lean = common.lean_check('C15')
     quick = ctx.quick()
+    common.run_regressions(ctx, 'C15', recheck)
     stream_infer(ctx, rng, 150 if quick else 1200)
     stream_reorder(ctx, rng, 60 if quick else 500)
     stream_empty(ctx, rng, 16 if quick else 100)
@@ -582,6 +595,22 @@ def run(ctx):
              'through infer_domain; domains from box / exp / norm / abs / equality coniclifts constraints with absent components; points kept '
              '1e-3 from the boundary; non-trivial = at least one constraint; distinct = distinct JSON',
         trusted=TRUSTED, assumptions=ASSUME)
+
+
+def recheck(r):
+    """execute the stored input of a violation again; the violation it (still) shows, or None"""
+    import random
+    ctx, rng = common.RecCtx(), random.Random(0)
+    k = r.get('stream')
+    if k == 'infer':
+        stream_infer(ctx, rng, 0, given=[r['case']], pinned=r.get('point'))
+    elif k == 'reorder':
+        cseed = r.get('cseed', (r.get('case') or {}).get('cseed'))
+        if cseed is not None:
+            stream_reorder(ctx, rng, 0, seeds=[cseed])
+    elif k == 'empty':
+        stream_empty(ctx, rng, 0, given=[(r['n'], r['j'], r['empty'], r['lo'])])
+    return ctx.first()
 
 
 def replay(obj):
